@@ -2,7 +2,7 @@ import argparse
 import os
 import sys
 
-from ckl.errors import CklSyntaxError, CklRuntimeError
+from ckl.errors import CklSyntaxError, CklRuntimeError, error_value_text
 from ckl.values import ValueString, ValueList, NULL
 
 import ckl.interpreter
@@ -51,7 +51,7 @@ def main():
                     if value != NULL:
                         print(value)
                 except CklRuntimeError as e:
-                    print(str(e.value.asString().value)
+                    print(error_value_text(e.value)
                           + ": " + str(e.msg)
                           + " (Line " + str(e.pos) + ")")
                     if e.stacktrace:
